@@ -108,6 +108,11 @@ FORMULAS = [
     'forall <start> s="{<assgn> a}[ ; <stmt>]" in start: (str.prefixof "a" a)',
     'forall <stmt> s="<var> := {<var> r} ; {<stmt> t}" in start: (str.prefixof r t)',
     'exists <stmt> s="{<var> l} := <rhs> ; {<var> m} := <rhs>" in start: (= l m)',
+    # count with a recursive needle
+    'count(start, "<stmt>", "2")',
+    'not count(start, "<stmt>", "2")',
+    'forall <stmt> s in start: (count(s, "<stmt>", "1") or count(s, "<stmt>", "2"))',
+    'exists <stmt> s in start: count(s, "<stmt>", "3")',
 ]
 PARSED = [parse_isla(t, G, STANDARD_STRUCTURAL_PREDICATES, STANDARD_SEMANTIC_PREDICATES) for t in FORMULAS]
 if FSEL:
